@@ -30,6 +30,8 @@ impl SnapshotWriter {
             //.append(true)
             //.create_new(true)
             .create(true)
+            // an interrupted earlier attempt may have left a longer file under the same id
+            .truncate(true)
             .open(path)
             .await?;
         let mut buf = Vec::new();
